@@ -2,36 +2,49 @@ package main
 
 import (
 	"fmt"
-	"github.com/zenon-network/go-zenon/vm/constants"
+	"math/big"
 	"os"
+
+	"github.com/zenon-network/go-zenon/chain/nom"
+	"github.com/zenon-network/go-zenon/common/types"
+	"github.com/zenon-network/go-zenon/vm/constants"
+	"github.com/zenon-network/go-zenon/vm/embedded/definition"
 
 	"verifmc/internal/ops"
 	"verifmc/internal/vnode"
-	"verifmc/internal/xs"
-	_ "verifmc/props/c11"
 )
 
 func main() {
 	dir, _ := os.MkdirTemp("/dev/shm", "scratch")
 	defer os.RemoveAll(dir)
-	// configure as c11 does
-	chk := xs.Lookup("C11")
-	_ = chk
 	vnode.SmallConsensus(2)
 	constants.MomentumsPerEpoch = 6
 	constants.RewardTimeLimit = 10
 	constants.UpdateMinNumMomentums = 2
-	constants.PillarEpochLockTime = 20
-	constants.PillarEpochRevokeTime = 1 << 40
 	n := vnode.New(vnode.Options{Dir: dir + "/n"})
 	M := ops.Op{K: "M"}
-	seq := []ops.Op{M, M, {K: "RevokeP3"}, M, M, {K: "M3"}, M, M, {K: "Q"}, {K: "M3"}, {K: "M3"}}
+	seq := []ops.Op{M, M, M, {K: "M", V: 80}, M, M, M, M, M, M, M, M}
 	for _, o := range seq {
-		fmt.Println(o, "->", ops.Apply(n, o), "height", n.Height())
+		out := ops.Apply(n, o)
+		st := n.Chain.GetFrontierMomentumStore().GetAccountStore(types.LiquidityContract).Storage()
+		le, _ := definition.GetLastEpochUpdate(st)
+		// minted to liquidity
+		zn := new(big.Int)
+		cnt := 0
+		ac := n.Chain.GetFrontierMomentumStore().GetAccountStore(types.LiquidityContract)
+		for h := uint64(1); h <= ac.Identifier().Height; h++ {
+			b, _ := ac.ByHeight(h)
+			if b.BlockType == nom.BlockTypeContractReceive {
+				for _, d := range b.DescendantBlocks {
+					if d.ToAddress == types.TokenContract {
+						cnt++
+					}
+				}
+			}
+		}
+		bal, _ := ac.GetBalance(types.ZnnTokenStandard)
+		fmt.Println(o, "->", out, "height", n.Height(), "liquidity lastEpoch", le.LastEpoch, "mint blocks", cnt, "znn balance", bal, zn)
 	}
-	f := vnode.New(vnode.Options{Dir: dir + "/f", NoPillars: true})
-	_, err, pan := f.InsertChain(vnode.CloneBatch(n.Range(2, n.Height())))
-	fmt.Println("follower:", err, pan, f.FullDigest() == n.FullDigest())
-	fmt.Println(n.ConsensusDigest(0))
-	fmt.Println(f.ConsensusDigest(0))
+	z, q := constants.LiquidityRewardForEpoch(0)
+	fmt.Println("per epoch", z, q)
 }
